@@ -284,7 +284,9 @@ func planC19(w *World, spec RunSpec) {
 	w.setupCommon(0)
 	w.drawFaultMix("err-before", "lost-response", "crash", "duplicate")
 	w.Cfg.Ndist = 80 + s.Intn(300, "ndist")
-	switch spec.Index % 3 {
+	switch spec.Index % 4 {
+	case 3:
+		w.Scenario = GenOD(w, ODProfile{MaxEdits: 5, Pause: true, HostileLimits: true, EmptyStart: true, NeverReady: s.Bool("never-ready")})
 	case 0:
 		w.Scenario = GenOS(w, OSProfile{MaxSets: 2, Delegation: true, Lifecycle: true, CondMappings: true, LateCreate: true})
 	case 1:
@@ -292,7 +294,7 @@ func planC19(w *World, spec RunSpec) {
 		w.Scenario = GenOT(w, 5, "hostile")
 	case 2:
 		w.Cfg.Packages = true
-		w.Scenario = GenPKG(w, 4, "hostile")
+		w.Scenario = GenPKG(w, 4, "hostile", "final-delete", "recreate")
 	}
 	w.AddAgent(&HostileAgent{Budget: 2 + s.Intn(10, "hostile-budget")})
 	w.StartProcesses()
